@@ -1923,6 +1923,7 @@ class locked_ref:
         self._file: _GitFile | None = None
         self._realname: Ref | None = None
         self._deleted = False
+        self._written = False
 
     def __enter__(self) -> Self:
         """Enter the context manager and acquire the lock.
@@ -1960,7 +1961,9 @@ class locked_ref:
           traceback: Traceback if an exception occurred
         """
         if self._file:
-            if exc_type is not None or self._deleted:
+            if exc_type is not None or self._deleted or not self._written:
+                # Nothing to commit: committing the still empty lock file
+                # would replace the ref by an empty file.
                 self._file.abort()
             else:
                 self._file.close()
@@ -2005,6 +2008,7 @@ class locked_ref:
         self._file.truncate()
         self._file.write(new_ref + b"\n")
         self._deleted = False
+        self._written = True
 
     def set_symbolic_ref(self, target: Ref) -> None:
         """Make this ref point at another ref.
@@ -2020,6 +2024,7 @@ class locked_ref:
         self._file.truncate()
         self._file.write(SYMREF + target + b"\n")
         self._deleted = False
+        self._written = True
 
     def delete(self) -> None:
         """Delete the ref file while holding the lock."""
